@@ -24,9 +24,13 @@ maps the trace index of every fixture setup/teardown `enter` record to the token
 
 Payloads are self-describing: message = "<unit>#<i>" (e.g. "body:s0.t1#2", "fx:f0:setup#0", "body:s0.t1:th:3#0").
 """
+import os
+import tempfile
 import threading
 
 import lemoncheesecake.api as lcc
+
+from run.gen import effective_act as _effective_act
 
 _RAISES = {"exc": Exception, "AbortTest": lcc.AbortTest, "AbortSuite": lcc.AbortSuite, "AbortAllTests": lcc.AbortAllTests}
 
@@ -121,6 +125,8 @@ class Interp:
 
     def run_acts(self, unit, script):
         for i, act in enumerate(script):
+            if "only_in_run" in act:        # guarded act (gen.effective_act): depends on which run of the process this is
+                act = _effective_act(act, getattr(self, "run_index", 1))
             self.user(unit, "act:%d" % i, None)
             self.do_act(unit, i, act)
 
@@ -158,6 +164,32 @@ class Interp:
         if a == "attachw":
             # `with lcc.prepare_attachment(..) as path:` around an inner script run by this very thread
             child_unit = list(unit) + ["blk", i]
+            if act.get("via") == "save_file":
+                # `lcc.save_attachment_file(src, ..)` with a source that does not exist: the block is the framework's own
+                # (`with self.prepare_attachment(..) as path: shutil.copy(src, path)`), its body raises FileNotFoundError
+                missing = os.path.join(tempfile.gettempdir(), "lccverif-no-such-file-%d-%d.txt" % (os.getpid(), i))
+                try:
+                    lcc.save_attachment_file(missing, "a%d.txt" % i, msg)
+                except lcc.AbortTest as e:          # `_interruptible`: refused at the entry of the api call, no block entered
+                    e._lccverif_kind = "interrupted"
+                    self.user(unit, "raise:interrupted", None)
+                    raise
+                except BaseException as e:
+                    self.user(child_unit, "enter", {})
+                    self.user(child_unit, "act:0", None)
+                    self.user(child_unit, "raise:exc", None)
+                    if not isinstance(e, FileNotFoundError):
+                        self.api_errors.append([unit, i, type(e).__name__, str(e)])
+                    e._lccverif_kind = "exc"
+                    self.user(unit, "raise:exc", None)
+                    raise
+                # the call RETURNED although the copy inside its block raised: recorded as what happened (the block was left by
+                # an exception), the script goes on as the real caller's code would
+                self.user(child_unit, "enter", {})
+                self.user(child_unit, "act:0", None)
+                self.user(child_unit, "raise:exc", None)
+                return
+            late = act.get("write") == "late"
             try:
                 cm = lcc.prepare_attachment("a%d.txt" % i, msg)     # public api: `_interruptible`
             except lcc.AbortTest as e:
@@ -166,9 +198,13 @@ class Interp:
                 raise
             try:
                 with cm as path:
-                    with open(path, "w") as fh:
-                        fh.write("content of " + msg)
+                    if not late:
+                        with open(path, "w") as fh:
+                            fh.write("content of " + msg)
                     self.run_unit(child_unit, act["script"], {})
+                    if late:        # the content is produced first, the file written as the block's last statement
+                        with open(path, "w") as fh:
+                            fh.write("content of " + msg)
             except BaseException as e:
                 kind = getattr(e, "_lccverif_kind", None)
                 if kind is None:
